@@ -9,7 +9,8 @@ wt = f"/tmp/seed/{pid}" if rnd == 1 else f"/tmp/seed/{pid}r{rnd}"
 if not os.path.isdir(wt):
     os.makedirs("/tmp/seed", exist_ok=True)
     subprocess.run(["git", "-C", "/repo", "worktree", "add", "-q", "--detach", wt, "HEAD"], check=True)
-extra = "" if rnd == 1 else " Other people have already tried the most obvious sites (the central function named by the property, its main boundary test, its primary loop). Look further: helper functions and error/cleanup paths that the property relies on, rarely taken branches, state that must be reset between uses, behaviour shared with a base class or a sibling class, and pairs of sites that are each fine alone. Vary what is needed to expose the change (a different kind of input, history, schedule or fault than the obvious one)."
+extra3 = " Two earlier rounds of this exercise have already covered the central functions named by the property, their boundary tests and their direct helpers. Look elsewhere: (a) collaborating code the property silently depends on but that is NOT listed under 'code involved' (base classes, shared utility functions, modules the listed files call into); (b) optional features and configuration: non-default constructor arguments and class attributes, alternative code paths such as bytes vs str, each variant of an algorithm/reactor/format the property quantifies over; (c) object lifecycle: reuse of one object for a second operation, state left behind by an earlier error or cancelled operation, re-entrant calls made from callbacks. Vary what is needed to expose the change (a different kind of input, history, schedule or fault than the obvious one)."
+extra = extra3 if rnd >= 3 else "" if rnd == 1 else " Other people have already tried the most obvious sites (the central function named by the property, its main boundary test, its primary loop). Look further: helper functions and error/cleanup paths that the property relies on, rarely taken branches, state that must be reset between uses, behaviour shared with a base class or a sibling class, and pairs of sites that are each fine alone. Vary what is needed to expose the change (a different kind of input, history, schedule or fault than the obvious one)."
 print(f"""You are helping to evaluate a verification effort for the Twisted networking framework (Python). Your job is to act as a realistic source of *subtle regressions*.
 
 You have your own scratch git worktree of the Twisted repository at {wt} (work ONLY there; do not read or write /repo or /verif). Run code against it with:  cd {wt} && PYTHONPATH={wt}/src /venv/bin/python ...   (the /venv interpreter otherwise imports a different checkout, so the PYTHONPATH is essential; verify with `python -c "import twisted; print(twisted.__file__)"`). Run existing tests with e.g.  cd {wt} && PYTHONPATH={wt}/src /venv/bin/python -m pytest -q -p no:cacheprovider src/twisted/<pkg>/test/test_<x>.py  . The sandbox is offline.
